@@ -10,8 +10,10 @@ CONSTANTS
   RejectDelta = 4
   MaxHeight = 1000
   MaxNow = 1000
+  Margins = {0, 1, 2}
+  ExpiredOffs = {1, 10, 90}
   KeysendQuirk = TRUE
   Guarded = TRUE
-INVARIANTS NotAccepted TypeOK SettledIsPaid AmtPaidExact StatesAgree
+INVARIANTS NotAccepted StoreResAgree StoreAmtPaidExact StoreStatesAgree StoreForward TypeOK SettledIsPaid AmtPaidExact StatesAgree
 CONSTRAINT HighWater
 CHECK_DEADLOCK FALSE
